@@ -658,7 +658,7 @@ pub fn run_c11(run: &RunInfo) -> Summary {
     //      which is what an update really does; includes files larger than any internal buffer
     {
         let sizes: Vec<usize> = if thorough { vec![0, 1, 999, 65535, 65536, 65537, 70_000, 131_073, 204_800] } else { vec![0, 1, 65537, 70_000, 204_800] };
-        let blks: Vec<u32> = if thorough { vec![1000, 999, 255, 1024, 10_000, 30_000, 32_768, 65_535] } else { vec![999, 1024, 10_000, 30_000, 32_768] };
+        let blks: Vec<u32> = if thorough { vec![1000, 999, 255, 1024, 10_000, 30_000, 32_768] } else { vec![999, 1024, 10_000, 30_000, 32_768] };
         let mut seq_cases: Vec<(DirSpec, u32)> = vec![];
         let mut k = 10_000;
         for &sz in &sizes {
